@@ -78,6 +78,7 @@ type Program struct {
 	fn      *runtime.Function
 	typeof  runtime.TypeOfFunc
 	globals []compiler.Global
+	goStmt  bool // reports whether the go statement is allowed.
 }
 
 // Build builds a program from the package in the root of fsys with the given
@@ -99,7 +100,7 @@ func Build(fsys fs.FS, options *BuildOptions) (*Program, error) {
 		}
 		return nil, err
 	}
-	return &Program{fn: code.Main, globals: code.Globals, typeof: code.TypeOf}, nil
+	return &Program{fn: code.Main, globals: code.Globals, typeof: code.TypeOf, goStmt: co.AllowGoStmt}, nil
 }
 
 // Disassemble disassembles the package with the given path and returns its
@@ -136,6 +137,9 @@ func (p *Program) Run(options *RunOptions) error {
 		if options.Print != nil {
 			vm.SetPrint(runtime.PrintFunc(options.Print))
 		}
+	}
+	if p.goStmt {
+		vm.AllowGoroutines()
 	}
 	err := vm.Run(p.fn, p.typeof, initPackageLevelVariables(p.globals))
 	if err != nil {
